@@ -50,6 +50,14 @@ CHECKS.update({
             "Per copy: handler executions, byte-identical repetition of the first ACK (or silence), independence of endpoints, re-processing after expiry.",
             TB + "EXCHANGE_LIFETIME (247 s) is computed from RFC defaults in the model, not read from the library.",
             "DESIGN.md 6/C04"),
+    "C10": ("model_checking", E1 + " (the RFC 7252 s.4.2/4.3 + RFC 7967 reaction table), plus all ordered pairs of a sub-table",
+            "A real context that is client (one pending, already ACKed request) and server (handlers of duration 0, EMPTY_ACK_DELAY-/+1ms, "
+            "0.5 s) receives every cell of type x code class x token known/unknown x source x unicast/multicast local address x "
+            "No-Response; the reply datagrams with their virtual send times are compared with the table cell by cell, all 33^2 ordered "
+            "pairs of a sub-table are compared as multisets with ACK-before-separate-response order, and outgoing requests to "
+            "multicast destinations are checked never to be CON.",
+            TB + "Don't-care cells (CON with reserved/signalling code; CON requests received on multicast) are excluded from the table comparison but still checked for invariants.",
+            "DESIGN.md 6/C10"),
     "C14": ("model_checking", E2,
             "Scripted submissions of CON/NON requests to two peers; the monitor rebuilds open-exchange/backlog state per remote from the "
             "wire and the applied events: never two open CON exchanges per remote, FIFO release in the very step the exchange ahead ends, "
